@@ -293,6 +293,7 @@ class Manager(RoleClient):
             if not s.get("timing_reference"):
                 continue      # the segment routes need a timing reference; the on-demand route above does not
             for n in ([1, nseg] if nseg > 1 else [1]):
-                url = BASE + f"/dash/vod/{s['directory']}/{m['name']}/{n}.mp4"
+                # an encrypted file is only served when the request selects a DRM system
+                url = BASE + f"/dash/vod/{s['directory']}/{m['name']}/{n}.mp4" + ("?drm=all" if m.get("encrypted") else "")
                 r = await self.request("GET", url)
                 self.notify("on_readback", s["directory"], m["name"], f"vod#{n}", url, r, rec)
